@@ -123,6 +123,7 @@ class Check:
     def lean_build(self, props_modules, driver=None, extra_targets=()):
         """build property modules (+ driver exe), audit axioms of every theorem in them"""
         targets = list(props_modules) + list(extra_targets) + ([driver] if driver else [])
+        self._lean_modules = list(props_modules) + list(extra_targets) + (['Driver.' + driver[4:].upper()] if driver and driver.startswith('drv_c') else [])
         cmd = ['lake', 'build'] + targets
         self.checker_cmds.append('cd lean && ' + ' '.join(cmd))
         os.makedirs(os.path.join(LEAN, '.lake'), exist_ok=True)
@@ -202,16 +203,29 @@ class Check:
                 else:
                     self.discharged.append(t)
 
-    def _grep_forbidden(self):
-        for root, _, files in os.walk(os.path.join(LEAN, 'PeptVerif')):
-            for fn in files:
-                if not fn.endswith('.lean'):
-                    continue
-                p = os.path.join(root, fn)
-                src = strip_lean_comments(open(p).read())
-                for i, line in enumerate(src.split('\n'), 1):
-                    if FORBIDDEN.search(line):
-                        self.lean_problems.append(f'forbidden token in {os.path.relpath(p, LEAN)}:{i}: {line.strip()[:80]}')
+    def _import_closure(self, modules):
+        """files of the PeptVerif/Driver modules transitively imported by `modules`"""
+        seen = {}
+        todo = list(modules)
+        while todo:
+            m = todo.pop()
+            if m in seen:
+                continue
+            path = os.path.join(LEAN, m.replace('.', '/') + '.lean')
+            if not os.path.exists(path):
+                continue
+            seen[m] = path
+            for mm in re.finditer(r'^\s*(?:public\s+)?import\s+((?:PeptVerif|Driver)\.[\w.]+)', open(path).read(), re.M):
+                todo.append(mm.group(1))
+        return seen
+
+    def _grep_forbidden(self, modules=None):
+        files = self._import_closure(self._lean_modules).values()
+        for p in files:
+            src = strip_lean_comments(open(p).read())
+            for i, line in enumerate(src.split('\n'), 1):
+                if FORBIDDEN.search(line):
+                    self.lean_problems.append(f'forbidden token in {os.path.relpath(p, LEAN)}:{i}: {line.strip()[:80]}')
 
     def leanchecker(self, modules):
         cmd = ['lake', 'env', 'leanchecker'] + list(modules)
